@@ -5,6 +5,7 @@ import (
 	"go/constant"
 	"go/token"
 	"go/types"
+	"os"
 	"regexp"
 	"sort"
 	"strconv"
@@ -668,6 +669,13 @@ func runC20(c *Ctx) {
 				ok, d = false, fmt.Sprintf("escaping of the template checksum not recognised (%d escaped forms, %d plain)", nPair, nPlain)
 			}
 		}
+		// the semantic decision (abstract interpretation with helpers inlined) takes precedence when it can be made
+		if dec, okI, whyI := c.templateByInterpretation(cl); dec {
+			ok, d = okI, whyI
+			R.Notes["template_escaping_decided_by"] = "abstract interpretation (byte layout of the frame handed to Decode)"
+		} else {
+			R.Notes["template_escaping_decided_by"] = "structural rule (the layout could not be reconstructed)"
+		}
 		s = report.Discharged
 		if !ok {
 			s = report.Violated
@@ -702,16 +710,30 @@ func runC20(c *Ctx) {
 			padFmt := regexp.MustCompile(`^%0[0-9]+s$`)
 			for _, v := range vals {
 				sawArg := false
-				for _, o := range c.origins(v, map[string]bool{"fmt.Sprintf": true}, nil) {
-					switch {
-					case o.Kind == "param" && o.Name == "freevar phone":
-						sawArg = true
-					case o.Kind == "const" && padFmt.MatchString(o.Name):
-					default:
-						okP = false
-						dP = fmt.Sprintf("the phone written at %s is derived from %s, not from the phone argument by zero padding alone: digits of long (2019, 20-digit) phones can be lost", c.P.RelPos(instrPos(v)), o.String())
+				var walkO func(v0 ssa.Value, depth int)
+				walkO = func(v0 ssa.Value, depth int) {
+					for _, o := range c.origins(v0, map[string]bool{"fmt.Sprintf": true}, nil) {
+						switch {
+						case o.Kind == "param" && o.Name == "freevar phone":
+							sawArg = true
+						case o.Kind == "const" && padFmt.MatchString(o.Name):
+						default:
+							// a parameter of a helper the template code was moved into: decided at its call sites
+							if prm, isP := o.Val.(*ssa.Parameter); isP && o.Kind == "param" && depth < 3 && prm.Parent() != cl {
+								args := c.resolveParam(prm, "terminal")
+								if len(args) > 0 && !(len(args) == 1 && args[0] == ssa.Value(prm)) {
+									for _, a := range args {
+										walkO(a, depth+1)
+									}
+									continue
+								}
+							}
+							okP = false
+							dP = fmt.Sprintf("the phone written at %s is derived from %s, not from the phone argument by zero padding alone: digits of long (2019, 20-digit) phones can be lost", c.P.RelPos(instrPos(v)), o.String())
+						}
 					}
 				}
+				walkO(v, 0)
 				if !sawArg && okP {
 					okP = false
 					dP = fmt.Sprintf("the phone written at %s does not come from the phone argument", c.P.RelPos(instrPos(v)))
@@ -926,4 +948,157 @@ func (c *Ctx) defaultBodiesRule() {
 	}
 	R.Notes["default_body_conditions_decided"] = n
 	R.Require("S.default-bodies", 4, "")
+}
+
+// templateByInterpretation decides the framing of WithHeader's template frame semantically: the closure (with every
+// helper it calls inlined) is interpreted abstractly; at the call that decodes the template, the byte layout of the
+// frame is reconstructed from the provenance of its buffer. It must read
+//     7e | payload | esc(code) | 7e
+// where payload is the very slice the checksum was computed over, code is the result of CreateVerifyCode(payload), and
+// esc(code) is 7d 02 on paths that know code == 0x7e, 7d 01 on paths that know code == 0x7d, and the byte itself on
+// paths that exclude both values. decided=false when the layout cannot be reconstructed (the structural rule decides).
+func (c *Ctx) templateByInterpretation(cl *ssa.Function) (decided, ok bool, why string) {
+	type frame struct {
+		st      *absint.State
+		fr      *absint.Slice
+		payload *absint.Slice
+		code    absint.Term
+		codeR   string
+		a       *absint.Analyzer
+	}
+	var frames []frame
+	codeByMark := map[int]absint.Term{}
+	var codeR string
+	var code absint.Term
+	var payload *absint.Slice
+	res := c.RunE1([]*ssa.Function{cl}, true, func(a *absint.Analyzer, fn *ssa.Function, st *absint.State, args []absint.Term) {
+		a.LogWrites = true
+		a.OnCall = func(a *absint.Analyzer, st *absint.State, site ssa.CallInstruction, callee *ssa.Function, cargs []absint.Term) {
+			switch {
+			case callee.Name() == "CreateVerifyCode" && len(cargs) == 1:
+				if s, isS := cargs[0].(*absint.Slice); isS {
+					payload = s
+					if a.BaseNames == nil {
+						a.BaseNames = map[*absint.Base]string{}
+					}
+					if _, named := a.BaseNames[s.Base]; !named {
+						a.BaseNames[s.Base] = "template-payload"
+					}
+				}
+			case callee.Name() == "Decode" && strings.Contains(callee.String(), "JTMessage") && len(cargs) == 2:
+				if s, isS := cargs[1].(*absint.Slice); isS {
+					var pc absint.Term
+					for m, v := range codeByMark {
+						if absint.Marked(st, m) {
+							pc = v
+						}
+					}
+					frames = append(frames, frame{st.Clone(), s, payload, pc, a.Render(pc), a})
+				}
+			}
+		}
+		a.OnInlined = func(f *ssa.Function, fargs []absint.Term, val absint.Term, st *absint.State) {
+			if f.Name() == "CreateVerifyCode" {
+				// one checksum value per return state of the helper: the path to the Decode call carries its mark
+				m := a.NewMark()
+				absint.Mark(st, m)
+				codeByMark[m] = val
+				code = val
+				if iv, isI := val.(absint.Int); isI {
+					if at := iv.L.SingleAtom(); at != nil {
+						if a.AtomNames == nil {
+							a.AtomNames = map[*absint.Atom]string{}
+						}
+						a.AtomNames[at] = "template-checksum"
+					}
+				}
+				codeR = a.Render(val)
+			}
+		}
+	})
+	if len(res) == 0 || len(frames) == 0 || payload == nil || code == nil || codeR == "?" {
+		return false, false, ""
+	}
+	debug := os.Getenv("JTVERIF_DEBUGTEMPLATE") != ""
+	nPlain, nEsc := 0, 0
+	for _, f := range frames {
+		a, payload, code, codeR := f.a, f.payload, f.code, f.codeR
+		if payload == nil || code == nil || codeR == "?" {
+			return false, false, ""
+		}
+		cv, isInt := code.(absint.Int)
+		if !isInt {
+			return false, false, ""
+		}
+		segs, okL := a.ByteLayout(f.st, f.fr)
+		if debug {
+			fmt.Printf("TEMPLATE layout ok=%v code=%s segs=%v\n", okL, codeR, segs)
+		}
+		if !okL || len(segs) < 4 {
+			return false, false, ""
+		}
+		first, last := segs[0], segs[len(segs)-1]
+		if first.Desc != "u8(126)" || !first.Off.IsConst() || first.Off.C != 0 {
+			return true, false, "the template frame does not start with the delimiter 0x7e (" + first.String() + ")"
+		}
+		if last.Desc != "u8(126)" {
+			return true, false, "the template frame does not end with the delimiter 0x7e (" + last.String() + ")"
+		}
+		pl := segs[1]
+		wantPl := ""
+		if ps, okP := a.ByteLayout(f.st, payload); okP && len(ps) == 1 {
+			wantPl = ps[0].Desc
+		}
+		if debug {
+			fmt.Printf("TEMPLATE payload desc %q pl.Len=%s payload.Len=%s off=%s\n", wantPl, pl.Len.String(), payload.Len.String(), pl.Off.String())
+		}
+		if wantPl == "" {
+			return false, false, ""
+		}
+		dl := pl.Len.Sub(payload.Len)
+		// (the callee's view of the argument may carry its own length atom; the rendered names are those of the defining site)
+		sameLen := (dl.IsConst() && dl.C == 0) || f.st.Entails(absint.Con{L: dl, Rel: absint.EQ}) || a.Render(absint.Int{L: pl.Len}) == a.Render(absint.Int{L: payload.Len})
+		if debug {
+			fmt.Println("TEMPLATE cons", f.st.Cons.String(), "| code lin:", cv.L.String(), "| trace:", strings.Join(f.st.Trace, " "))
+			fmt.Println("TEMPLATE conds", pl.Desc != wantPl, !pl.Off.IsConst(), pl.Off.C, !sameLen, dl.String())
+		}
+		if pl.Desc != wantPl || !pl.Off.IsConst() || pl.Off.C != 1 || !sameLen {
+			return true, false, "the bytes between the opening delimiter and the checksum are not exactly the bytes the checksum was computed over (" + pl.String() + ")"
+		}
+		mid := segs[2 : len(segs)-1]
+		is := func(k int64) bool { return f.st.Entails(absint.Con{L: cv.L.AddC(-k), Rel: absint.EQ}) }
+		not := func(k int64) bool {
+			return f.st.Entails(absint.Con{L: cv.L.AddC(-k), Rel: absint.NE}) || !f.st.Feasible(absint.Con{L: cv.L.AddC(-k), Rel: absint.EQ})
+		}
+		switch {
+		case len(mid) == 1 && mid[0].Desc == "u8("+codeR+")":
+			if !not(0x7d) || !not(0x7e) {
+				return true, false, "the checksum is written unescaped on a path where it can be 0x7d or 0x7e: the template frame then contains a raw escape byte / delimiter"
+			}
+			nPlain++
+		case len(mid) == 2 && mid[0].Desc == "u8(125)" && mid[1].Desc == "u8(2)":
+			if !is(0x7e) {
+				return true, false, "7d 02 is written on a path that does not know the checksum to be 0x7e"
+			}
+			nEsc++
+		case len(mid) == 2 && mid[0].Desc == "u8(125)" && mid[1].Desc == "u8(1)":
+			if !is(0x7d) {
+				return true, false, "7d 01 is written on a path that does not know the checksum to be 0x7d"
+			}
+			nEsc++
+		default:
+			var ds []string
+			for _, m := range mid {
+				ds = append(ds, m.Desc)
+			}
+			if is(0x7e) || is(0x7d) {
+				return true, false, fmt.Sprintf("on the path where the checksum is 0x%02x the template writes %v instead of the codec's escape (0x7e -> 7d 02, 0x7d -> 7d 01)", map[bool]int{true: 0x7e, false: 0x7d}[is(0x7e)], ds)
+			}
+			return false, false, ""
+		}
+	}
+	if nPlain == 0 || nEsc < 2 {
+		return true, false, fmt.Sprintf("escaping of the template checksum incomplete: %d paths write it plain, %d escaped (expected the plain path and both escapes)", nPlain, nEsc)
+	}
+	return true, true, ""
 }
